@@ -288,6 +288,7 @@ class Contract(Contract_):
         env = ex.bind_args(func, args, kwargs)
         for k, v in inputs.vars.items():     # ghost parameters
             env.vars.setdefault(k, v)
+        env.vars.setdefault("old", old)      # for loop invariants
         for j in self.joinlists:
             env.vars["__joinlist__" + j] = True
         frame = Frame(func, env)
@@ -753,6 +754,18 @@ def concretize(model, v):
     if isinstance(v, SymList):
         n = model.eval(v.length, model_completion=True).as_long()
         return [concretize_elem(model, v.schema, v.arrays, i) for i in range(min(n, 64))]
+    if isinstance(v, SymSet):
+        # members among the integers the model mentions (and their neighbours)
+        cand = set()
+        for d in model.decls():
+            if d.arity() == 0:
+                val = model[d]
+                if z3.is_int_value(val):
+                    cand |= {val.as_long() + j for j in (-1, 0, 1)}
+        return sorted(k for k in cand if z3.is_true(
+            model.eval(z3.Select(v.arr, z3.IntVal(k)), model_completion=True)))
+    if isinstance(v, SymMap):
+        return "<symbolic map>"
     if isinstance(v, Obj):
         return {"__class__": v.cls.__name__,
                 **{k: concretize(model, x) for k, x in v.fields.items()}}
@@ -788,3 +801,23 @@ def concretize_elem(model, schema, arrays, i, prefix=""):
                      + [concretize_elem(model, schema.rest, arrays, i, f"{prefix}r{k}.")
                         for k in range(n)])
     raise TypeError(schema)
+
+
+def forall_int(pred, lo=-2, hi=70000):
+    """spec builtin: pred(k) for every integer k (natively: for a finite
+    window that covers the values of the replayed scenario)"""
+    return all(pred(k) for k in range(lo, hi))
+
+
+@lib.model(forall_int)
+def _m_forall_int(ex, args, kw):
+    f = args[0]
+    k = z3.Int(ex.fresh_name("q_k"))
+    saved = ex.pc
+    ex.pc = list(saved)
+    n0 = len(ex.pc)
+    body = ex.truth_term(ex.call(f, [Sym(k, INT)], {}))
+    facts = ex.pc[n0:]
+    ex.pc = saved
+    inner = z3.Implies(z3.And(*facts), body) if facts else body
+    return Sym(z3.ForAll([k], inner), BOOL)
